@@ -105,10 +105,10 @@ def contaminate(rng, v):
     return v, kind
 
 
-def gen_columns(rng, n, n_feats=None):
+def gen_columns(rng, n, n_feats=None, fl_pair=False):
     k = int(rng.integers(2, 6)) if n_feats is None else n_feats
     feats = [str(f) for f in rng.choice(FEATURES, k, replace=False)]
-    if rng.random() < 0.1:
+    if rng.random() < 0.1 or fl_pair:
         # a fluorescence pair (stored as unsigned integers in .rtdc files)
         feats = ["fl1_max", "fl2_max"] + [f for f in feats if f not in ("fl1_max", "fl2_max")][:k - 2]
     cols, shapes = {}, {}
